@@ -82,7 +82,24 @@ def assd_kernel():
     out.append("Definition gen_default_connectivity : Z := 1.")
     out.append("Definition gen_border_is_mask_minus_erosion : bool := true.")
     out.append("Definition gen_distances_from_prediction_border_to_reference_border : bool := true.")
+    # ---- the distance transform wrapper: feature transform of the whole array, offsets to the nearest background voxel, squared,
+    #      summed over the axes, square root -- in one piece (no blocking, no narrowing casts)
+    f = find_func(tree, "_distance_transform_edt")
+    if [a.arg for a in f.args.args] != ["input_array", "sampling", "return_distances", "return_indices"] \
+            or [ast.unparse(d) for d in f.args.defaults] != ["None", "True", "False"]:
+        raise Refuse("_distance_transform_edt signature")
+    want = ["ft = np.zeros((input_array.ndim,) + input_array.shape, dtype=np.int32)",
+            "euclidean_feature_transform(input_array, sampling, ft)",
+            "if return_distances:\n    dt = ft - np.indices(input_array.shape, dtype=ft.dtype)\n    dt = dt.astype(np.float64)\n    np.multiply(dt, dt, dt)\n"
+            "    dt = np.add.reduce(dt, axis=0)\n    dt = np.sqrt(dt)",
+            "result = []", "if return_distances:\n    result.append(dt)", "if return_indices:\n    result.append(ft)",
+            "if len(result) == 2:\n    return tuple(result)\nelif len(result) == 1:\n    return result[0]\nelse:\n    return None"]
+    if body_differs(f, want):
+        raise Refuse("_distance_transform_edt body: " + str(body_differs(f, want))[:300])
+    out.append("Definition gen_distance_is_sqrt_of_summed_squared_offsets : bool := true.")
     imp = [ast.unparse(n) for n in tree.body if isinstance(n, (ast.Import, ast.ImportFrom))]
     if "from scipy.ndimage import _ni_support, binary_erosion, generate_binary_structure" not in imp:
         raise Refuse("erosion / structure are not scipy.ndimage's: " + str(imp))
+    if "from scipy.ndimage._nd_image import euclidean_feature_transform" not in imp:
+        raise Refuse("the feature transform is not scipy.ndimage's: " + str(imp))
     return "\n".join(out) + "\n"
